@@ -23,6 +23,7 @@ type c11Expect struct {
 	BadTable string     `json:"bad_table,omitempty"`
 	BadCol   string     `json:"bad_col,omitempty"`
 	Nested   bool       `json:"nested,omitempty"`
+	Scalar   bool       `json:"scalar,omitempty"`
 }
 
 func c11Judge(b *Bundle, o *casefmt.Obs, what string) []*Violation {
@@ -130,7 +131,7 @@ func evalC11(b *Bundle, r *Runner) []*Violation {
 			if exp.Mode == "raise" {
 				q = strings.ReplaceAll(q, "%J%", fmt.Sprint(j+1))
 			} else {
-				d, ok := corruptDoc(b.Case.Docs[0], exp.BadTable, j, exp.BadCol, exp.Nested)
+				d, ok := corruptDoc(b.Case.Docs[0], exp.BadTable, j, exp.BadCol, exp.Nested, exp.Scalar)
 				if !ok {
 					continue
 				}
@@ -252,7 +253,7 @@ func genC11(t *rapid.T) *Bundle {
 		tpl := rapid.SampledFrom(c19TypeTemplates).Draw(t, "type_tpl")
 		exp.FQ = faultQuery{Query: tpl.q, Shape: tpl.shape}
 		exp.NRows = nrows
-		exp.BadTable, exp.BadCol, exp.Nested = tpl.table, tpl.col, tpl.nested
+		exp.BadTable, exp.BadCol, exp.Nested, exp.Scalar = tpl.table, tpl.col, tpl.nested, tpl.scalar
 	}
 	c := oneClientCase("C11", sim, doc, casefmt.Op{Doc: 0, Vars: -1, Query: exp.FQ.Query, Wrapped: wrapped})
 	c.Stubs.Lat = drawLatencies(t, exp.FQ.Async, 5)
@@ -292,7 +293,7 @@ func corpusC11() []*Bundle {
 	for _, cb := range corpusC19() {
 		var e19 c19Expect
 		json.Unmarshal(cb.Expect, &e19)
-		exp := c11Expect{Mode: e19.Mode, FQ: e19.FQ, NRows: e19.NRows, BadTable: e19.BadTable, BadCol: e19.BadCol, Nested: e19.Nested}
+		exp := c11Expect{Mode: e19.Mode, FQ: e19.FQ, NRows: e19.NRows, BadTable: e19.BadTable, BadCol: e19.BadCol, Nested: e19.Nested, Scalar: e19.Scalar}
 		c := cb.Case
 		c.Prop = "C11"
 		out = append(out, &Bundle{Prop: "C11", Kind: "corpus", Case: c, Expect: mustJSON(exp), Tags: append([]string{"corpus"}, cb.Tags[1:]...)})
